@@ -552,15 +552,9 @@ func c14SketchTransition(parent, child *SketchWorld, op skOp) (fails []mc.Fail) 
 // orderFree: no result of this scenario depends on map iteration order
 // (either the order is owned by the overlay, or no sparse store is involved).
 func orderFree(ks []Kind) bool {
-	if mc.MapOrderControlled {
-		return true
-	}
-	for _, k := range ks {
-		if k.K == 'S' {
-			return false
-		}
-	}
-	return true
+	// native build: sparse stores and protobuf bin maps are walked in the
+	// runtime's order, and sums of non-dyadic weights depend on it
+	return mc.MapOrderControlled
 }
 
 var reweightFactors = []float64{0.0009765625, 0.5, 1, 2, 3}
@@ -709,10 +703,14 @@ func init() {
 		Rule:        "differential, model-free: every history of the two-slot store worlds (all five kinds) and sketch worlds (both variants) is executed in a main world as written and in a twin world where each Clear is executed as 'replace by a newly constructed object'; the visited-set key contains the concrete dumps of both worlds (incl. stale memory behind len); after every transition corresponding slots must be observed identical; distinct_nontrivial counts distinct contents",
 		Assumptions: []string{"histories bounded by the stated depth below every seed; Clear may occur any number of times within it"},
 		Shards: func(tier string) []mc.Shard {
-			under := []Kind{{K: 'D'}, {K: 'S'}, {K: 'P'}, {K: 'L', N: 3}, {K: 'H', N: 3}, {K: 'L', N: 1}}
+			under := []Kind{{K: 'D'}, {K: 'S'}, {K: 'P'}, {K: 'L', N: 3}, {K: 'H', N: 3}, {K: 'L', N: 1}, {K: 'L', N: 100}, {K: 'H', N: 70}}
 			stSpecs := storeSpecs("C15", under, tier, 3, 4, func(sp *StoreScenarioSpec, o *alphabetOpts) {
 				sp.Twin = true
 				o.reads = false
+				// model-free world: a weight that underflows to zero when halved leaves
+				// an "empty" store with a populated index range behind
+				o.runs = append(o.runs, opAddW(0, o.idxA[len(o.idxA)-1], 5e-324))
+				sp.Seeds = append(sp.Seeds, storeSeed("weight-underflowed-to-zero", opAddW(0, o.idxA[1], 5e-324), opAddW(0, o.idxA[2], 5e-324), opReweight(0, 0.5)))
 			})
 			sh := shardsOfSpecs(stSpecs)
 			var specs []*SketchScenarioSpec
@@ -729,6 +727,8 @@ func init() {
 							sp.Depth = 5
 						}
 						sp.Ops = generalSketchOps(m, k, exact)
+						// model-free world: a huge weighted value overflows the exact sum
+						sp.Ops = append(sp.Ops, skAddW(0, 1e200, 1e200), skAddW(0, -1e200, 1e200))
 						specs = append(specs, sp)
 					}
 				}
